@@ -41,7 +41,7 @@ _old_inst = T.Axioms.inst
 def _inst(self, t):
     _old_inst(self, t)
     d = t.decl()
-    if d.name() == "fsize" and not T._has_var(t):
+    if d.name() == "fsize":
         x = t.arg(0)
         self.out.append(t >= 0)
         self.out.append(z3.Implies(T.is_Data(x), t == z3.Length(T.f_data(x))))
@@ -65,6 +65,8 @@ class Lib:
         if key in ctx.__dict__.setdefault("_typed", {}):
             return
         ctx._typed[key] = loc
+        for fn in ctx.__dict__.get("forall_locs", []):
+            ctx.assume(fn(loc))
         fs0 = ctx.__dict__.get("fs0")
         if fs0 is None:
             return
@@ -418,7 +420,7 @@ class Lib:
             xs = self.need_str(it, x, "TypeError")
             return z3.Contains(s.term, xs.term)
         if isinstance(container, VObj) and container.cls == "symdict":
-            return container.f["has"](self.need_str(it, x, "TypeError").term)
+            return container.f["fn_has"](self.need_str(it, x, "TypeError").term)
         raise Undecided(f"`in` on {container}")
 
     def binop(self, it, op, a, b):
@@ -500,8 +502,9 @@ class Lib:
                     # a symbolic first component under a store directory must not be one of the
                     # fixed sub-directory names, and must not be absolute (join-reset rule)
                     it.ctx.oblige("path/component-relative",
-                                  z3.And(np[1] != T.EMPTY,
-                                         z3.Not(z3.PrefixOf(z3.StringVal("/"), np[1]))),
+                                  z3.Or(T.ishex(np[1]),
+                                        z3.And(np[1] != T.EMPTY,
+                                               z3.Not(z3.PrefixOf(z3.StringVal("/"), np[1])))),
                                   props=("C18",))
                 parts.append(np)
         return VPath(anchor, parts, p.pathobj)
@@ -630,8 +633,8 @@ class Lib:
             it.raise_("KeyError")
         if isinstance(obj, VObj) and obj.cls == "symdict":
             k = self.need_str(it, key, "KeyError")
-            if it.ctx.branch(obj.f["has"](k.term)):
-                return obj.f["get"](k.term)
+            if it.ctx.branch(obj.f["fn_has"](k.term)):
+                return obj.f["fn_get"](k.term)
             it.raise_("KeyError")
         if isinstance(obj, VNone):
             it.raise_("TypeError")
